@@ -79,8 +79,11 @@ def l2(rep, pa, tier, rng):
                     lab = ["x", None, "y"][i % 3] if variant == "twins" else (f"l{a}{i}" if variant == "distinct" else "x")
                     seg = Segment(float(3 * i), float(3 * i + 2)) if variant != "far" else Segment(36000.0 + 0.02 * i, 36000.01 + 0.02 * i)
                     c.add(anns[a], seg, lab)
-            conts[(sizes, variant)] = (c, anns, ar.units_by_annotator(c))
-        c, anns, units = conts[(sizes, variant)]
+            # the same continuum with one more unit: an alignment may carry one continuum and be checked against another
+            bigger = c.copy()
+            bigger.add(anns[0], Segment(90000.0, 90001.0), "x")
+            conts[(sizes, variant)] = (c, anns, ar.units_by_annotator(c), bigger)
+        c, anns, units, bigger = conts[(sizes, variant)]
         tuples = p["al"]
         n += 1
         rep.case(key=json.dumps([sizes, tuples, variant]), nontrivial=len(tuples) > 1)
@@ -92,6 +95,14 @@ def l2(rep, pa, tier, rng):
                 "check() with shuffled slots": outcome(lambda: build_alignment(pa, cls, c, units, anns, tuples, order_shuffle=rng).check()),
                 "constructor(check_validity=True, disorder=0.0)": outcome(lambda: build_alignment(pa, cls, c, units, anns, tuples, check=True, disorder=0.0)),
             }
+            # the continuum GIVEN to check() is the one checked against, whatever continuum the alignment carries
+            al_big = build_alignment(pa, cls, bigger, units, anns, tuples)
+            got["check(continuum) on an alignment carrying a bigger continuum"] = outcome(lambda: al_big.check(c))
+            g2 = outcome(lambda: build_alignment(pa, cls, c, units, anns, tuples).check(bigger))
+            if g2 != "SetPartitionError":
+                rep.violation(f"check.{name}.check_other", {"class": name, "how": "check(bigger continuum) on an alignment carrying the smaller one: a unit is missing",
+                                                            "sizes": sizes, "tuples": tuples, "continuum_variant": variant,
+                                                            "spec_outcome": "SetPartitionError", "code_outcome": g2})
             for how, g in got.items():
                 if g != want:
                     rep.violation(f"check.{name}.{how.split('(')[0]}", {"class": name, "how": how, "sizes": sizes, "tuples": tuples, "continuum_variant": variant,
